@@ -25,6 +25,14 @@ def source_bytes(kind, seq, pos):
     if kind == "O":
         lines = [gen.ts_iso_off(E_MS + t // 1000, OFFS[(j + pos) % len(OFFS)], us=t % 1000000) + b" o%d-%d" % (pos, j) for j, t in enumerate(seq)]
         return "s%d.txt" % pos, b"\n".join(lines) + b"\n"
+    if kind == "S":
+        # text with 7 fractional digits (100 ns ticks), UTC offset written
+        lines = []
+        for j, t in enumerate(seq):
+            base = gen.ts_iso_off(E_MS + t // 1000, 0, us=t % 1000000)      # ...ss.uuuuuu +0000
+            stamp, off = base.rsplit(b" ", 1)
+            lines.append(stamp + b"0 " + off + b" n%d-%d" % (pos, j))
+        return "s%d.txt" % pos, b"\n".join(lines) + b"\n"
     if kind == "U":
         return "s%d.wtmp" % pos, gen.utmp_file([(gen.EPOCH_2000 + t // 1000000, t % 1000000, b"%d-%d" % (pos, j)) for j, t in enumerate(seq)])
     raise ValueError(kind)
@@ -68,14 +76,24 @@ def run(tier, seed, build=True):
         useqs = list(nondecreasing(sub, 2)) + list(nondecreasing(dom, 3, 3)) + [[1000000, 0], [1001000, 1000400, 0], [1000400, 0, 1001000]]   # record files: stored out of order too
         # (the ISO notation costs ~60 ms per run: lazily compiled patterns) -> fewer sequences in the quick tier
         oseqs = list(nondecreasing(sub, 2)) if tier != "quick" else [[x] for x in sub] + [[0, 1000000], [1000000, 1000400], [1000400, 1000400]]
-        kindseqs = {"T": seqs, "U": useqs, "O": oseqs}
+        sseqs = [[100000], [100000, 600000], [0, 100000, 1000000]]
+        kindseqs = {"T": seqs, "U": useqs, "O": oseqs, "S": sseqs}
         cases = []
         kind_pairs = [("T", "T"), ("T", "U"), ("U", "T"), ("U", "U"), ("O", "T"), ("T", "O"), ("O", "O")]
+        # 7-digit fractions beside millisecond stamps inside the same second
+        s_partner = [[0, 1000000], [500000, 1000000]]
+        for ss in sseqs:
+            for sp in s_partner:
+                pass
         for ka, kb in kind_pairs:
             for sa in kindseqs[ka]:
                 for sb in kindseqs[kb]:
                     cases.append([(ka, sa), (kb, sb)])
-        for k in ("T", "U", "O"):
+        for ss in sseqs:
+            for sp in ([0, 1000000], [500000, 1000000], [200000]):
+                cases.append([("S", ss), ("T", sp)])
+                cases.append([("T", sp), ("S", ss)])
+        for k in ("T", "U", "O", "S"):
             for s_ in kindseqs[k]:
                 cases.append([(k, s_)])
         if tier == "thorough":
@@ -114,7 +132,7 @@ def run(tier, seed, build=True):
             return case, extra, policy, x, expected, per, srcs
 
         def pols(c):
-            return POLICIES[:1] if (tier == "quick" and any(k == "O" for k, _ in c)) else POLICIES
+            return POLICIES[:1] if (tier == "quick" and any(k in "OS" for k, _ in c)) else POLICIES
         items = [(c, [], p) for c in cases for p in pols(c)] + [(c, ["-a", "20000101T000001", "-b", "20000101T000001.000"], p) for c in wcases for p in POLICIES[:2]]
         nA = 0
         ties_seen = 0
@@ -265,6 +283,21 @@ def run(tier, seed, build=True):
                               "walked directory: merged output is not the merge in sorted path order %s (policy %s)" % (order, pol),
                               {"engine": "E-CLI", "args": cfg.args, "tree": {rel: common.b64(source_bytes(k, s_, pos)[1]) for rel, k, s_, pos in files}})
         res.distinct(("D", "dir"))
+        # paths listed on stdin ('-') take the position of the '-' in the tie order
+        common.write_file(os.path.join(work, "D", "a.wtmp"), source_bytes("U", [0, 1000000], 0)[1])
+        common.write_file(os.path.join(work, "D", "m1.wtmp"), source_bytes("U", [0, 1000000], 1)[1])
+        common.write_file(os.path.join(work, "D", "m2.log"), source_bytes("T", [0, 1000000], 2)[1])
+        common.write_file(os.path.join(work, "D", "z.wtmp"), source_bytes("U", [0, 1000000], 3)[1])
+        order2 = ["a.wtmp", "m1.wtmp", "m2.log", "z.wtmp"]
+        per2 = [oracle.single_source_messages(n, os.path.join(work, "D"), binary=common.S4V)[0] for n in order2]
+        exp2 = oracle.expected_output(per2)
+        for argv, sin in ((["a.wtmp", "-", "z.wtmp"], b"m1.wtmp\nm2.log\n"), (["-", "m2.log", "z.wtmp"], b"a.wtmp\nm1.wtmp\n"), (["a.wtmp", "m1.wtmp", "m2.log", "-"], b"z.wtmp\n")):
+            r = common.run_s4(list(oracle.DEC_ARGS) + ["-t", "+00:00"] + argv, cwd=os.path.join(work, "D"), stdin=sin)
+            res.count()
+            if r.out != exp2:
+                res.violation({"part": "D", "symptom": "stdin-order-differs", "dash_last": argv[-1] == "-"},
+                              "`s4 %s` with stdin %r: tie order is not the order the sources were named" % (" ".join(argv), sin),
+                              {"engine": "E-CLI", "args": list(oracle.DEC_ARGS) + argv, "stdin": sin.decode()})
     finally:
         shutil.rmtree(work, ignore_errors=True)
     res.coverage.update({
